@@ -1,6 +1,10 @@
 package main
 
-import "time"
+import (
+	"os"
+	"path/filepath"
+	"time"
+)
 
 func init() {
 	register(&Plan{
@@ -297,7 +301,17 @@ func init() {
 		Assumptions: []string{"replacements are non-empty and not absolute paths", "ResetKnownPathMapping and removal of the home / cwd entries are not generated", "paths that merely string-prefix-match a key without lying under it (/srvx for /srv) are unconstrained"},
 		Floors:      map[string]int64{"queries": 10000, "caller_fields_checked": 20},
 		Jobs: func(tier string, seed int64) []Job {
-			return chunk("paths", "prod", pick(tier, 8000, 60000), pick(tier, 500, 3750), Job{Timeout: 30 * time.Minute})
+			js := chunk("paths", "prod", pick(tier, 8000, 60000), pick(tier, 500, 3750), Job{Timeout: 30 * time.Minute})
+			// processes whose $HOME is reached through a symbolic link: paths are spelled the way $HOME is spelled
+			real := filepath.Join(buildDir, "home-real")
+			link := filepath.Join(buildDir, "home-link")
+			if os.MkdirAll(real, 0o755) == nil {
+				_ = os.Remove(link)
+				if os.Symlink(real, link) == nil {
+					js = append(js, chunk("paths", "prod", pick(tier, 500, 4000), pick(tier, 250, 1000), Job{Env: []string{"HOME=" + link}, Timeout: 30 * time.Minute})...)
+				}
+			}
+			return js
 		},
 	})
 	register(&Plan{
